@@ -610,7 +610,7 @@ func runSeq(c *mc.Ctx, r *mc.Result, poolName string) {
 				if !c.Mine(idx) {
 					continue
 				}
-				if idx&1023 == 0 && c.Expired() {
+				if c.ExpiredEvery(1024) {
 					stopped = true
 					r.NotExhaustive = append(r.NotExhaustive, "sequential: time guard")
 					return
